@@ -1,2 +1,7 @@
 #![allow(warnings, clippy::all, clippy::pedantic, clippy::nursery)]
+//@ module: id
 use super::*;
+
+/// first byte of an id (harness ids are `b || 0^31`)
+pub(crate) fn id0(id: &Id) -> u8 { id.0[0] }
+pub(crate) fn bytes(id: &Id) -> &[u8; 32] { &id.0 }
